@@ -3,15 +3,26 @@ from pyvc.rt import *  # noqa: F401,F403
 
 PROPERTY = "C03"
 SR = "synkit/Synthesis/Reactor/syn_reactor.py"
+GU = "synkit/Graph/utils.py"
+USES_NX = True
 CLASSES = {}
-TRUSTED = ["A-builtins (tuples as values; slices with constant bounds)"]
-ASSUMPTIONS = ["only the per-atom merge step is under contract; matching, edge merging, explicit-hydrogen rendering and SMILES output are decided by the bounded twin"]
+TRUSTED = ["A-builtins (tuples as values; slices with constant bounds; max over a node view)", "A-nx-graph (copy, add_node / add_edge with **attrs)"]
+ASSUMPTIONS = ["only the per-atom merge step (_node_glue) and the wildcard extension (add_wildcard_subgraph_for_unmapped, copy mode, integer node ids) are under contract; "
+               "matching, edge merging, explicit-hydrogen rendering and SMILES output are decided by the bounded twin"]
 
 
 def tgh_ok(t):
     """a typesGH descriptor: two 5-tuples (element, aromatic, hcount, charge, neighbours) with integer hydrogen counts"""
     return isinstance(t, tuple) and isinstance(t[0], tuple) and isinstance(t[1], tuple) and len(t) == 2 and len(t[0]) == 5 and len(t[1]) == 5 and isinstance(t[0][2], int) and isinstance(t[1][2], int) \
         and not isinstance(t[0][2], bool) and not isinstance(t[1][2], bool)
+
+
+def is_index(n):
+    return isinstance(n, int) and not isinstance(n, bool)
+
+
+def unmapped_l(L, mapping, l):
+    return L.has_node(l) and l not in mapping
 
 
 FUNCTIONS = {
@@ -35,5 +46,59 @@ FUNCTIONS = {
             "implies('h_pairs' in pat_n, same(host_n['h_pairs'], pat_n['h_pairs']))",
             "implies('h_pairs' not in pat_n, ('h_pairs' in host_n) == old('h_pairs' in host_n) and same(host_n.get('h_pairs'), old(host_n.get('h_pairs'))))",
         ],
+    },
+    # the wildcard extension used when template atoms stay unmapped (partial / wildcard mode): the substrate's atoms and bonds all survive
+    # untouched, every unmapped template atom gets a NEW wildcard atom with an id the substrate does not use, different atoms different ids
+    GU + "::add_wildcard_subgraph_for_unmapped": {
+        "params": {"G": "obj:Graph", "L": "obj:Graph", "mapping": "dict[any,any]", "edge_keys": "list[str]", "inplace": "const:False"},
+        "vars": {"L_to_G": "dict[any,any]", "unmapped": "set[any]", "edge_data": "dict[str,any]"},
+        "returns": "tuple[obj:Graph,dict[any,any]]",
+        "requires": ["forall(G.nodes, lambda n: is_index(n))",
+                     "forall(mapping, lambda k: G.has_node(mapping[k]))",
+                     "forall(L.edges, lambda u, v: forall(range(len(edge_keys)), lambda i: (not isinstance(L[u][v].get(edge_keys[i]), tuple)) or len(L[u][v].get(edge_keys[i])) > 0))"],
+        "modifies": [],
+        "ensures": [
+            "is_fresh(result[0])",
+            # the atoms of G are all there, untouched; its bonds are all there
+            "forall(G.nodes, lambda n: result[0].has_node(n) and same(result[0].nodes[n], G.nodes[n]))",
+            "forall(G.edges, lambda u, v: result[0].has_edge(u, v))",
+            # the returned map extends the given one to every pattern atom
+            "forall(mapping, lambda k: k in result[1] and same(result[1][k], mapping[k]))",
+            "forall(L.nodes, lambda l: l in result[1])",
+            # every pattern atom that had no image gets a NEW wildcard atom (an id that G does not use), different ones get different atoms
+            "forall(L.nodes, lambda l: implies(l not in mapping, is_index(result[1][l]) and not G.has_node(result[1][l]) and result[0].has_node(result[1][l]) "
+            "       and result[0].nodes[result[1][l]].get('element') == '*'))",
+            "forall((L.nodes, L.nodes), lambda a, b: implies(a not in mapping and b not in mapping and not same(a, b), result[1][a] != result[1][b]))",
+        ],
+        "loops": {
+            1: {"modifies": ["G_ext.nodes", "G_ext.nattr"],
+                "inv": [
+                    "is_index(next_id) and forall(G_ext.nodes, lambda n: is_index(n) and n < next_id)",
+                    "forall(G.nodes, lambda n: G_ext.has_node(n) and same(G_ext.nodes[n], G.nodes[n]))",
+                    "forall(('any', 'any'), lambda u, v: G_ext.has_edge(u, v) == G.has_edge(u, v))",
+                    "forall(mapping, lambda k: k in L_to_G and same(L_to_G[k], mapping[k]))",
+                    "forall('any', lambda k: (k in L_to_G) == (k in mapping or k in done))",
+                    "forall(done, lambda l: is_index(L_to_G[l]) and L_to_G[l] < next_id and not G.has_node(L_to_G[l]) and G_ext.has_node(L_to_G[l]) "
+                    "       and G_ext.nodes[L_to_G[l]].get('element') == '*')",
+                    "forall((done, done), lambda a, b: implies(not same(a, b), L_to_G[a] != L_to_G[b]))",
+                    "forall(L_to_G, lambda k: G_ext.has_node(L_to_G[k]))",
+                ]},
+            2: {"modifies": ["G_ext.nodes", "G_ext.nattr", "G_ext.adj", "G_ext.eattr"],
+                "inv": [
+                    "forall('any', lambda n: G_ext.has_node(n) == at_entry(G_ext.has_node(n)))",
+                    "forall(G_ext.nodes, lambda n: same(G_ext.nodes[n], at_entry(G_ext.nodes[n])))",
+                    "forall(('any', 'any'), lambda u, v: implies(at_entry(G_ext.has_edge(u, v)), G_ext.has_edge(u, v)))",
+                    "forall(L_to_G, lambda k: G_ext.has_node(L_to_G[k]))",
+                    # the map built by the first loop is only read here
+                    "forall(mapping, lambda k: k in L_to_G and same(L_to_G[k], mapping[k]))",
+                    "forall('any', lambda k: (k in L_to_G) == (k in mapping or unmapped_l(L, mapping, k)))",
+                    "forall(L.nodes, lambda l: implies(l not in mapping, is_index(L_to_G[l]) and not G.has_node(L_to_G[l]) and G_ext.has_node(L_to_G[l]) "
+                    "       and G_ext.nodes[L_to_G[l]].get('element') == '*'))",
+                    "forall((L.nodes, L.nodes), lambda a, b: implies(a not in mapping and b not in mapping and not same(a, b), L_to_G[a] != L_to_G[b]))",
+                    "forall(G.nodes, lambda n: G_ext.has_node(n) and same(G_ext.nodes[n], G.nodes[n]))",
+                    "forall(G.edges, lambda u, v: G_ext.has_edge(u, v))",
+                ]},
+            3: {"modifies": [], "inv": ["True"]},
+        },
     },
 }
